@@ -16,6 +16,7 @@ pub struct Out {
     samples: Vec<Value>,
     failures: Vec<Value>,
     pub failure_count: u64,
+    per_what: BTreeMap<String, u64>,
     extra: BTreeMap<String, Value>,
 }
 
@@ -42,6 +43,7 @@ impl Out {
             samples: Vec::new(),
             failures: Vec::new(),
             failure_count: 0,
+            per_what: BTreeMap::new(),
             extra: BTreeMap::new(),
         }
     }
@@ -78,7 +80,11 @@ impl Out {
     /// a property failure established by the harness' own oracle against the implementation
     pub fn fail(&mut self, what: &str, input: Value, expected: Value, got: Value) {
         self.failure_count += 1;
-        if self.failures.len() < 50 {
+        // keep up to 25 failures per distinct `what`, so that a frequent (possibly known) class never
+        // hides a different one
+        let n = self.per_what.entry(what.to_string()).or_insert(0);
+        *n += 1;
+        if *n <= 25 && self.failures.len() < 400 {
             self.failures
                 .push(json!({"what": what, "input": input, "expected": expected, "got": got}));
         }
@@ -98,6 +104,7 @@ impl Out {
             "samples": self.samples,
             "oracle_failures": self.failures,
             "oracle_failure_count": self.failure_count,
+            "oracle_failures_by_what": self.per_what,
             "extra": self.extra,
         });
         std::fs::write(self.dir.join("stats.json"), serde_json::to_string_pretty(&stats).unwrap())
